@@ -13,12 +13,12 @@ import (
 	"go/printer"
 	"go/token"
 	"go/types"
-	"os"
 	"regexp"
 	"sort"
 	"strconv"
 	"strings"
 	"time"
+	"verif/internal/report"
 
 	"github.com/lugu/qiloop/meta/idl"
 	"github.com/lugu/qiloop/meta/signature"
@@ -99,7 +99,7 @@ func loadDeps(root, overlay string) (mapImporter, error) {
 	cfg := &packages.Config{
 		Mode: packages.NeedName | packages.NeedTypes | packages.NeedImports,
 		Dir:  root,
-		Env:  append(os.Environ(), "GOFLAGS=-mod=mod", "GOPROXY=off", "GOSUMDB=off", "GOTOOLCHAIN=local"),
+		Env:  report.GoEnv(),
 	}
 	if overlay != "" {
 		cfg.BuildFlags = []string{"-overlay", overlay}
